@@ -39,8 +39,8 @@ CLAIMS = {
          "'no description line extends past the terminal width' and 'continuation lines are indented to the description column' are not mechanised; three facts about UTF-8 character counts under concatenation (sub-additive, at most 3 less than the sum, exact before an ASCII byte), the ghost character count of bytes.Buffer and the description of what eachActiveGroup visits are trusted axioms; nwd is a trusted ghost function"),
  "C18": ("completion: completeCommands returns exactly the non-hidden subcommands of the current command with the typed prefix; completeOptionNames offers only non-hidden long names of the table with that prefix, one item per such name (counting invariant over every order the runtime may range over the table), a non-empty short prefix is returned as it is; completeValue asks the value's own Completer (or, failing that, the Completer of its address) exactly once and re-attaches the spelling typed so far to each answer; complete: the word walk decides 'value attached to the first short option' exactly as the parser's splitShortConcatArg does (width of the first character as decoded), one source of candidates per call, the result is the sorted rearrangement of that source",
          "the relational claim 'the parser reaches the same command context on the same prefix' is covered only for the attached-value rule of clusters, not for the whole walk (positionals, terminator, command switch are safety-checked only); short-name offers (second table) and the Completer implementations are not specified; table entries are trusted to be non-nil"),
- "C19": ("multiTag.scan against a recursive grammar of the tag text (keys, escapes inside quoted values, repeated keys in order, strconv.Unquote of each literal), safety for every string, ErrTag on every error exit; checkForDuplicateFlags: a nil result implies that no two options of the declaration share a short name or a namespaced long name (the two tables are proved to be witnesses), a non-nil result is ErrDuplicatedFlag",
-         "Get/GetMany/cached and the attribute mapping in scanStruct (which tag feeds which Option field), the short-name-length and bool-default checks are not under contract (reflection over struct fields)"),
+ "C19": ("multiTag.scan against a recursive grammar of the tag text (keys, escapes inside quoted values, repeated keys in order, strconv.Unquote of each literal), safety for every string, ErrTag on every error exit; checkForDuplicateFlags: a nil result implies that no two options of the declaration share a short name or a namespaced long name (the two tables are proved to be witnesses), a non-nil result is ErrDuplicatedFlag; scanStruct: every option it creates carries exactly the tag's attributes - long and short name, description, defaults / choices / optional values in order, value name, mask, env key and delimiter, the optional / required / hidden marks - and is bound to its group and field; a short name longer than one character or a default on a boolean flag never yields an option",
+         "multiTag.Get/GetMany (the cache over scan's result), the sub-group / sub-command / positional-args handlers and the error types of the two refusals are not under contract; reflect is assumed"),
  "C20": ("levenshtein proved equal to the Wagner-Fischer recurrence over rune sequences (table invariants), closestChoice returns the first minimum, visible/sorted command lists, estimateCommand: candidates are exactly the sorted visible subcommands, suggestion iff 2*distance < length of the suggested name, otherwise the enumeration of all of them (message text proved)",
          "the float32 threshold in estimateCommand is modelled over the reals; symmetry and d=0 iff equal are properties of the recurrence not proved as lemmas"),
 }
